@@ -117,6 +117,13 @@ impl XmlReader {
     /// Returns an error if the XSD/WSDL is invalid
     pub fn read_xml(files_to_read: &FilesToRead) -> WriterResult<RustDocument> {
         let (content, start_with_file, files) = files_to_read.inner();
+
+        // the processed flags only have a meaning within one run; a previous run on the same
+        // `FilesToRead` must not make this one skip files
+        for file in files.map.values() {
+            file.processed.store(false, std::sync::atomic::Ordering::SeqCst);
+        }
+
         Self::read_xml_internal(content, start_with_file, files)
     }
 
